@@ -84,12 +84,12 @@ def main(tier):
         "named as-implemented invariant timing (Dynamics.tla invimpl = 1): that deviation is decided by C13",
     ]
     core = gen_dynamic.duration_core()
-    n = 90 if tier == "quick" else 1500
+    n = 240 if tier == "quick" else 1500
     rand = gen_dynamic.generate(seed() * 104729 + 12, n, "core")
     ncore = gen_dynamic.nested_core()
     if tier == "quick":
         ncore = ncore[seed() % 2 :: 2]
-    nested = gen_dynamic.generate_nested(seed() * 7753 + 12, 40 if tier == "quick" else 800)
+    nested = gen_dynamic.generate_nested(seed() * 7753 + 12, 120 if tier == "quick" else 800)
     dcore = gen_dynamic.dynobj_core()
     if tier == "quick":
         dcore = dcore[seed() % 2 :: 2]
